@@ -281,6 +281,20 @@ def step (line : String) : String :=
           out := out ++ [s!"{showNats v.1}@{v.2}/{showNats s.line}@{CompLine.clamp s.line s.cur}"]
         | .error e => out := out ++ [e.show]; break
       return " ".intercalate out
+  | ["killr", l, cp, kind, a, b] =>
+    -- kill-region on a selection made with MarkRange(a, b) ("range") or Mark(a) ("mark"), then yank
+    let line := parseNats l
+    let ai : Int := a.toInt?.getD 0
+    let bi : Int := b.toInt?.getD 0
+    let sel : Sel.S := if kind == "range" then Sel.markRange line {} ai bi else Sel.mark line {} ai
+    let s0 : Kill.St := { line := line, cur := ⟨cp.toInt?.getD 0, -1⟩, sel := sel }
+    match (do
+        let s1 ← Kill.killRegion s0
+        let c1 := Core.checkAppend s1.line s1.cur
+        let s2 ← Kill.yank { s1 with cur := c1 }
+        pure (s1.line, c1.pos, s1.kill, s2.line) : Core.G _) with
+    | .ok (l1, c1, k, l2) => s!"ok {showNats l1} {c1} {showNats k} {showNats l2}"
+    | .error e => e.show
   | ["loop", flags, regs, mtbl, ltbl, chunks] =>
     -- the whole main loop on probe commands and bind macros: flags = emacs, nonInc, isearch;
     -- table entries seq:action:macro, the action of a macro given as its runes
@@ -353,6 +367,7 @@ def step (line : String) : String :=
       | "kill-line" => Kill.killLine s0
       | "backward-kill-line" => Kill.backwardKillLine s0
       | "backward-kill-word" => Kill.backwardKillWord s0
+      | "kill-whole-line" => Kill.killWholeLine s0
       | _ => pure s0
     match (do
         let s1 ← r
